@@ -214,7 +214,12 @@ def scenarios(draw, cfg):
         if step is not None:
             steps.append(step)
             m.apply(step)
-    return {"root": rootname, "tree": tree, "steps": steps}
+    scn = {"root": rootname, "tree": tree, "steps": steps}
+    if cfg.get("spell", True):
+        # how the root folder is typed in every command of this scenario: absolute, with a trailing separator,
+        # relative to the parent directory, or as "." from inside
+        scn["spell"] = draw(st.sampled_from(["abs", "abs", "abs", "slash", "rel", "dot"]))
+    return scn
 
 
 def top_names_used(scn):
